@@ -708,11 +708,13 @@ class BaseNodeVisitor(ast.NodeVisitor):
                     ignore = f"{ignore_comment}[{error_code.name}]"
                 else:
                     ignore = ignore_comment
-                replacement = Replacement(
-                    [lineno],
-                    ["{}{}\n".format(" " * indentation, ignore), this_line],
-                    str(e),
-                )
+                if all(line.startswith("#") for line in lines[: lineno - 1]):
+                    # A comment on its own line here would be read as a file-level
+                    # ignore, so put it at the end of the line.
+                    new_lines = ["{}  {}\n".format(this_line.rstrip("\n"), ignore)]
+                else:
+                    new_lines = ["{}{}\n".format(" " * indentation, ignore), this_line]
+                replacement = Replacement([lineno], new_lines, str(e))
             else:
                 if replacement is not None:
                     replacement.error_str = str(e)
